@@ -42,7 +42,7 @@ func Harness_C06_schedules() {
 	got := runOp(w, doc, op, vars)
 	want := ref.Execute(pSchema, doc, op, vars, w)
 	zzsym.Assert(got.data == want.Data, "same data on every schedule")
-	zzsym.Assert(sameStrings(got.errs, want.Errors), "same multiset of errors on every schedule")
+	zzsym.Assert(sameErrors(got.errs, want.Errors), "same multiset of errors on every schedule")
 	zzsym.Event("data", got.data)
 	zzsym.Event("errors", strings.Join(got.errs, " "))
 	zzsym.Reach("c06.compared")
@@ -94,6 +94,6 @@ func Harness_C06_invalids() {
 	got := runOp(w, doc, op, nil)
 	want := ref.Execute(pSchema, doc, op, nil, w)
 	zzsym.Assert(got.data == want.Data, "same data on every schedule")
-	zzsym.Assert(sameStrings(got.errs, want.Errors), "same multiset of errors on every schedule")
+	zzsym.Assert(sameErrors(got.errs, want.Errors), "same multiset of errors on every schedule")
 	zzsym.Reach("c06.invalids")
 }
